@@ -111,6 +111,19 @@ func genObjective(r *common.Rng, s *Spec, n int) {
 	s.setInts("touch", r.Intn(n+1)-1)
 	s.setInts("eps", r.Intn(2))
 	s.setInts("iter", r.Range(3, 12))
+	zeroTouched(s, "x0")
+}
+
+// a sparse start vector whose caller touched an absent entry: that entry is
+// an explicitly stored zero
+func zeroTouched(s *Spec, name string) {
+	if t := s.int1("touch", -1); s.Kind == 2 && t >= 0 {
+		v := s.vals(name)
+		if t < len(v) {
+			v[t] = 0
+			s.setVals(name, v)
+		}
+	}
 }
 
 func (b *bld) objective(budget int) *objData {
@@ -632,6 +645,7 @@ func init() {
 			s.setInts("touch", r.Intn(d+1)-1)
 			s.setInts("eps", r.Intn(2))
 			s.setInts("iter", r.Range(1, 6))
+			zeroTouched(s, "x")
 			return s
 		},
 		build: func(b *bld) {
